@@ -271,7 +271,7 @@ def boundary_chains(limit, uid_pass, uid_drop):
     return out
 
 
-def run_uidhist(run, lib, ini_bytes, seq, tag, timeout=60):
+def run_uidhist(run, lib, ini_bytes, seq, tag, timeout=25):
     """one process image (root, LD_PRELOAD = lib + recorder), one exec call per entry of seq = [(uid, gid)], the real uid/gid changed
     in between; file output to <dir>/out.log.  Returns [(uid, gid, bytes appended, ret, errno)] or an error string."""
     tools = stage_tools(run)
@@ -286,7 +286,7 @@ def run_uidhist(run, lib, ini_bytes, seq, tag, timeout=60):
     os.chmod(log, 0o666)
     e = {"PATH": "/usr/bin:/bin", "HOME": "/", "LD_PRELOAD": "%s %s" % (lib, os.path.join(tools, "librecorder.so"))}
     try:
-        p = subprocess.run([os.path.join(tools, "tool_uidhist"), ini, log, ",".join("%d:%d" % x for x in seq)], env=e, cwd=d, timeout=timeout,
+        p = subprocess.run([os.path.join(tools, "tool_uidhist"), ini, log, ",".join("%d:%d" % x[:2] + (":t" if len(x) > 2 and x[2] else "") for x in seq)], env=e, cwd=d, timeout=timeout,
                            stdin=subprocess.DEVNULL, stdout=subprocess.PIPE, stderr=subprocess.PIPE)
     except subprocess.TimeoutExpired:
         return "timeout"
